@@ -125,6 +125,7 @@ func cmdRun(args []string) int {
 	paramsJ := fs.String("params", "", "json map of harness parameters")
 	knownJ := fs.String("known", "", "json map label -> known classes")
 	dump := fs.String("dump", "", "directory for stand-alone obligation queries")
+	inc := fs.String("inc", "", "1 = keep the path condition on the solver stack between queries (helps long paths with easy queries, hurts hard bit-vector queries)")
 	fs.Parse(args)
 	if *prof != "" {
 		pf, _ := os.Create(*prof)
@@ -133,6 +134,9 @@ func cmdRun(args []string) int {
 		signal.Notify(sig, syscall.SIGTERM, syscall.SIGINT)
 		go func() { <-sig; pprof.StopCPUProfile(); os.Exit(3) }()
 		defer pprof.StopCPUProfile()
+	}
+	if *inc == "1" {
+		sym.Inc = true
 	}
 	opt := sym.DefaultOptions()
 	opt.Verbose = *verbose
